@@ -578,7 +578,7 @@ SPEC = Property(
     P, "exploration",
     rule=("histories over {caller i issues a read with a unique id, accessory answers the oldest pending request whole / in pieces / with an "
           "event glued behind it / only partly (rest later), event, caller cancelled, advance 0.1/29.9/30/31 s, peer FIN, peer reset, "
-          "unsolicited response while idle, local close of the pairing, accessory stops reading / reads again} with up to 3 concurrent callers on an established secure session; bounded exhaustive DFS "
+          "unsolicited response while idle, local close of the pairing, accessory stops reading / reads again, caller cancelled resp. pairing closed while an unpolled RST sits in the socket} with up to 3 concurrent callers on an established secure session; bounded exhaustive DFS "
           "(depth 4 over 15 events in quick, depth 5 over 21 events in thorough; histories with a disabled event are pruned and counted) "
           "and generated histories of 3..30 events. Non-trivial: >=2 requests and at least one of cancel, timeout, FIN/reset, partial "
           "response, event behind a response, unsolicited response."),
